@@ -65,7 +65,7 @@ Notation "'do' x <- r ; k" := (bind r (fun x => k))
 (* ------------------------------------------------------------------ the constructed object *)
 
 Inductive area :=
-| ANil                                      (* a nil geojson.Object *)
+| ANil                                      (* a nil geojson.Object (ROAM; an unknown word in parseArea) *)
 | APoint (lat lon : Z)                      (* geojson.NewPoint(geometry.Point{X: lon, Y: lat}) *)
 | ACircle (lat lon meters : Z)              (* geojson.NewCircle(Point{X: lon, Y: lat}, meters, 64) *)
 | ASector (lat lon meters b1 b2 : Z)        (* Parse(sectr.NewSector(Point{Lng: lon, Lat: lat}, meters, b1, b2).JSON()) *)
@@ -281,7 +281,7 @@ Section Parsers.
   Definition types_has (cmd : scmd) (ltyp : bytes) : bool :=
     match cmd with
     | CNearby => beq ltyp "point"
-    | _ => beq ltyp "geo" || beq ltyp "bounds" || beq ltyp "hash" || beq ltyp "tile"
+    | _ => beq ltyp "bounds" || beq ltyp "hash" || beq ltyp "tile"
            || beq ltyp "quadkey" || beq ltyp "get" || beq ltyp "object" || beq ltyp "circle"
            || beq ltyp "point" || beq ltyp "sector" || beq ltyp "mvt"
     end.
@@ -289,8 +289,8 @@ Section Parsers.
   Definition is_nearby (cmd : scmd) : bool := match cmd with CNearby => true | _ => false end.
 
   (* what the `switch ltyp` leaves behind: the rest of the tokens, lfs.obj, the tile numbers,
-     lfs.mvt, lfs.clip, lfs.roam and the value of `err` (only the GET arm falls out of the switch
-     with err set) *)
+     lfs.mvt, lfs.clip, lfs.roam and the value of `err` (nil on every path since /repo 7096363; the
+     GET arm of the pinned code fell out of the switch with err set, see [search_switch_pinned]) *)
   Record shead := mkH {
     h_vs : list bytes; h_obj : area; h_tile : Z * Z * Z; h_mvt : bool; h_clip : bool;
     h_roam : option roamT; h_err : option perr
@@ -360,14 +360,13 @@ Section Parsers.
           else Ok (mkH vs obj tile false clip None None)
       end
     else if beq ltyp "get" then
-      (* if lfs.clip { err = errInvalidArgument("cannot clip with get") }  — no return *)
-      let pending := if clip then Some (EInvalidArg (lit "cannot clip with get")) else None in
+      if clip then Err (EInvalidArg (lit "cannot clip with get")) else
       do (vs, key) <- need_tok vs;
       do (vs, id) <- need_tok vs;
       match lookup key id with
       | LNoKey => Err EKeyNotFound
       | LNoId => Err EIdNotFound
-      | LFound => Ok (mkH vs (AGet key id) (0, 0, 0) false clip None pending)
+      | LFound => Ok (mkH vs (AGet key id) (0, 0, 0) false clip None None)
       end
     else if beq ltyp "roam" then
       do (vs, key) <- need_tok vs;
@@ -423,6 +422,47 @@ Section Parsers.
     let found := types_has cmd ltyp || (fence && beq ltyp "roam" && is_nearby cmd) in
     if negb found then Err (EInvalidArg typ) else
     do h <- search_switch cmd clip ltyp vs;
+    do r <- clipby_loop (S (length (h_vs h))) (h_vs h) (h_obj h) (h_tile h) (h_err h);
+    match r with
+    | (obj, tile) => Ok (mkS obj outreset tile (h_mvt h) (h_clip h) (h_roam h))
+    end.
+
+  (* ---------------------------------------------------------------- the pinned search side *)
+
+  (* cmdSearchArgs before /repo 1d3bf59 and 7096363 (findings C02-within-geo-nil, C02-clip-get-clipby),
+     kept only for the refutations of Props/C02ar.v; the code no longer exists, so nothing ties it.
+     withinOrIntersectsTypes contained "geo" (no arm in the switch), and the GET arm was
+       if lfs.clip { err = errInvalidArgument("cannot clip with get") }      — no return
+     The arms are selected by distinct string constants, so "the old GET arm, otherwise the switch as
+     it is" is the old switch. *)
+  Definition types_has_pinned (cmd : scmd) (ltyp : bytes) : bool :=
+    types_has cmd ltyp || (negb (is_nearby cmd) && beq ltyp "geo").
+
+  Definition search_switch_pinned (cmd : scmd) (clip : bool) (ltyp : bytes) (vs : list bytes) : res shead :=
+    if beq ltyp "get" then
+      let pending := if clip then Some (EInvalidArg (lit "cannot clip with get")) else None in
+      do (vs, key) <- need_tok vs;
+      do (vs, id) <- need_tok vs;
+      match lookup key id with
+      | LNoKey => Err EKeyNotFound
+      | LNoId => Err EIdNotFound
+      | LFound => Ok (mkH vs (AGet key id) (0, 0, 0) false clip None pending)
+      end
+    else search_switch cmd clip ltyp vs.
+
+  Definition search_area_pinned (cmd : scmd) (fence clip outb : bool) (vs : list bytes) : res sres :=
+    do (vs, typ) <- need_tok vs;
+    let '(vs, typ, outreset) :=
+      if outb && negb (is_nearby cmd) then
+        match pf typ with
+        | Some _ => (typ :: vs, lit "BOUNDS", true)
+        | None => (vs, typ, false)
+        end
+      else (vs, typ, false) in
+    let ltyp := lower typ in
+    let found := types_has_pinned cmd ltyp || (fence && beq ltyp "roam" && is_nearby cmd) in
+    if negb found then Err (EInvalidArg typ) else
+    do h <- search_switch_pinned cmd clip ltyp vs;
     do r <- clipby_loop (S (length (h_vs h))) (h_vs h) (h_obj h) (h_tile h) (h_err h);
     match r with
     | (obj, tile) => Ok (mkS obj outreset tile (h_mvt h) (h_clip h) (h_roam h))
